@@ -235,13 +235,10 @@ def rule_PL2(ctx, tier):
     head = nexts[0]
     starts = _loop_some_edges(ctx, b, head)
     rm = {bb for bb in sites_containing(b, "HashSet", "::remove") if "f:pending_appointments" in og.show(arg_origin(ctx, b, bb, 0))}
-    # the in-memory pending set is only ever shrunk one delivered/settled locator at a time: emptying it wholesale
-    # (take / replace / drain / clear) forgets the rest of the batch whenever run() leaves early
-    for bb, t in b.calls():
-        tgt = call_target(t) or ""
-        if tgt.endswith(("mem::take", "mem::replace", "mem::swap")) or (("HashSet" in tgt) and tgt.endswith(("::drain", "::clear", "::retain"))):
-            if "f:pending_appointments" in og.show(arg_origin(ctx, b, bb, 0)):
-                rr.fail("pending-set-bulk-removed:%s" % tgt.split("::")[-1], "Retrier::run empties the retrier's pending set wholesale (`%s`): when run() returns early (tower unreachable, subscription error, misbehaviour) the not-yet-sent locators are no longer scheduled" % tgt, where=b.line_of(bb))
+    # (a clause used to forbid emptying the in-memory pending set wholesale — take / drain / retain. Since the retry task reloads
+    # what the database holds as pending before it flags the tower reachable (fix 159ea13), a locator that drops out of the
+    # in-memory set is picked up again: the set is a work list, the database is the record. What still matters is below: a
+    # locator that WAS settled must leave the set before run() can come round to it again.)
     if not starts or not rm:
         rr.fail("loop-shape", "cannot find the loop edge / pending_appointments.remove in Retrier::run", where=b.span)
         return rr
